@@ -77,6 +77,20 @@ def run(chk):
         if len(evs) > 1:
             events += evs
             infos[tid] = info
+    # a frame that lives on: the same object is verified, given new values in place, and taken through a whole session again
+    for j in range(300 if thorough else 60):
+        df, kinds = vs.rich_frame(rnd)
+        for rep in range(3):
+            tid = nsess + 3 * j + rep
+            evs, info = vs.one_session(rnd, tid, root, df=df, kinds=kinds, copy=False)
+            if len(evs) > 1:
+                events += evs
+                infos[tid] = info
+            try:
+                if not vs.change_in_place(rnd, df, kinds):
+                    break
+            except Exception:
+                break
     res, rejected = trace.validate('Trace_VerifySession', 'Trace_VerifySession.cfg', events, name='verify_sessions',
                                    workers=4)
     chk.add_tlc(res)
@@ -96,6 +110,10 @@ def run(chk):
                 sig['error'] = e['raised'].split(':')[0]
                 if 'n_failures' in e['raised'] and 'n_failures' in info['kinds']:
                     sig['fieldname'] = 'n_failures'
+                else:
+                    m = re.search(r'cannot insert (\S+_ok), already exists', e['raised'])
+                    if m and m.group(1) in info['kinds']:
+                        sig['fieldname'] = 'named like a detection output column (<field>_<kind>_ok)'
             if e.get('failed'):
                 sig['failed'] = ','.join(sorted(set(e['failed'])))
                 if all(x.endswith(':rex') for x in e['failed']) and info.get('rexes'):
